@@ -3,7 +3,7 @@
 //! chain is replayed from the constructor; the enumeration is a tree cut at the first rejected
 //! call, with `solve()` tried after every accepted prefix.
 
-use crate::inst::{dispatch, make_deriv, make_vec, DerivBox, DtBounds, StubHooks, Visitor};
+use crate::inst::{dispatch, make_deriv, make_vec, DerivBox, DtBounds, SimData, StubHooks, Visitor};
 use crate::model::{ErrClass, Expect, Model, Outcome};
 use crate::run::{execute, Budget, ExecOpts};
 use crate::spec::*;
@@ -18,39 +18,82 @@ use std::rc::Rc;
 /// The setter alphabet: class representatives valid / zero / negative zero / negative, and
 /// start / end values giving start < end, start = end and start > end in both call orders.
 pub fn alphabet() -> Vec<BOp> {
+    // the float right above 1.0: a valid value that differs from another valid value by one ulp
+    let one_up = f64::from_bits(1.0f64.to_bits() + 1);
     vec![
-        // tolerance: valid small, valid large, zero, negative zero, negative
+        // tolerance: valid small, valid above 1, smallest normal, zero, negative zero, negative
         BOp::Tol(1e-3),
         BOp::Tol(2.0),
+        BOp::Tol(f64::MIN_POSITIVE),
         BOp::Tol(0.0),
         BOp::Tol(-0.0),
         BOp::Tol(-1e-3),
-        // maximum step: small, medium, longer than any interval below, zero, negative zero, negative
+        // maximum step: small, medium, longer than any interval below, far below machine
+        // epsilon, 1.0 (one ulp below a minimum value), zero, negative zero, negative
         BOp::Max(0.05),
         BOp::Max(0.5),
         BOp::Max(4.0),
+        BOp::Max(1e-17),
+        BOp::Max(1.0),
         BOp::Max(0.0),
         BOp::Max(-0.0),
         BOp::Max(-0.5),
-        // minimum step: small, above the small maximum, longer than any interval, zero, -0, negative
+        // minimum step: small, above the small maximum, longer than any interval, a few 1e-17
+        // (above the tiny maximum by less than machine epsilon), one ulp above 1.0, zero, -0, negative
         BOp::Min(1e-3),
         BOp::Min(0.2),
         BOp::Min(4.0),
+        BOp::Min(5e-17),
+        BOp::Min(one_up),
         BOp::Min(0.0),
         BOp::Min(-0.0),
         BOp::Min(-1e-3),
-        // start / end: start < end, start = end (also as -0.0 / +0.0), start > end, both call orders
+        // start / end: start < end (also by one ulp), start = end (also as -0.0 / +0.0 and for
+        // a negative time), start > end, in both call orders
         BOp::Start(0.0),
         BOp::Start(-0.0),
         BOp::Start(1.0),
         BOp::Start(2.0),
+        BOp::Start(-1000.0),
         BOp::End(0.0),
         BOp::End(1.0),
+        BOp::End(one_up),
         BOp::End(3.0),
+        BOp::End(-1000.0),
         BOp::IcSlice,
         BOp::IcVec,
         BOp::Deriv,
     ]
+}
+
+/// Sub-alphabets enumerated to a greater depth: the two pairs of setters whose checks depend on
+/// each other, so that "the same setter called n times" and long alternations are covered.
+pub fn sub_alphabets(thorough: bool) -> Vec<(&'static str, Vec<BOp>, usize)> {
+    let full = alphabet();
+    let steps: Vec<BOp> = full.iter().copied().filter(|o| matches!(o, BOp::Max(_) | BOp::Min(_))).collect();
+    let times: Vec<BOp> = full.iter().copied().filter(|o| matches!(o, BOp::Start(_) | BOp::End(_))).collect();
+    let tol: Vec<BOp> = full.iter().copied().filter(|o| matches!(o, BOp::Tol(_))).collect();
+    vec![
+        ("step-bounds", steps, if thorough { 7 } else { 6 }),
+        ("times", times, if thorough { 8 } else { 7 }),
+        ("tolerance", tol, 6),
+    ]
+}
+
+/// Work units of a sub-alphabet enumeration: (kind, dim, field, first setter).
+pub fn bsub_units(alphabet_len: usize) -> Vec<(Kind, DimMode, Field, BOp, Option<usize>)> {
+    let mut v = Vec::new();
+    for kind in KINDS {
+        for dim in B_DIMS {
+            for field in [Field::Real, Field::Complex] {
+                let good = if dim.dynamic { BOp::NewDyn(dim.n) } else { BOp::New };
+                for f in 0..alphabet_len {
+                    v.push((kind, dim, field, good, Some(f)));
+                }
+            }
+        }
+    }
+    v
 }
 
 /// A derivative that is never called (the builder half never iterates).
@@ -88,12 +131,13 @@ fn class_of(e: &IVPError) -> ErrClass {
 
 /// Replay one chain (constructor, setters, then `solve`) on the real builder of type S, checking
 /// each call against the model. Returns false on the first disagreement.
-fn eval_chain<S, N, D>(ctor: &BOp, ops: &[BOp], dim: DimMode, euler: bool, hooks: &Rc<dyn StubHooks>, cs: &mut ChainStats) -> bool
+fn eval_chain<S, N, D, U>(ctor: &BOp, ops: &[BOp], dim: DimMode, euler: bool, hooks: &Rc<dyn StubHooks>, cs: &mut ChainStats) -> bool
 where
     N: Scalar,
+    U: SimData,
     D: Dimension + 'static,
     DefaultAllocator: Allocator<N, D>,
-    S: IVPSolver<'static, D, Error = IVPError, Field = N, RealField = f64, UserData = (), Derivative = DerivBox<N, D>>
+    S: IVPSolver<'static, D, Error = IVPError, Field = N, RealField = f64, UserData = U, Derivative = DerivBox<N, D, U>>
         + DtBounds
         + 'static,
 {
@@ -134,7 +178,7 @@ where
             BOp::End(v) => b.with_ending_time(v),
             BOp::IcSlice => b.with_initial_conditions_slice(&initial_state::<N>(n, 1.0)),
             BOp::IcVec => b.with_initial_conditions(make_vec::<N, D>(n, &initial_state::<N>(n, 1.0))),
-            BOp::Deriv => Ok(b.with_derivative(make_deriv::<N, D>(hooks.clone()))),
+            BOp::Deriv => Ok(b.with_derivative(make_deriv::<N, D, U>(hooks.clone()))),
             _ => unreachable!(),
         };
         match r {
@@ -176,7 +220,7 @@ where
     // B5: solve after this prefix
     cs.calls += 1;
     let exp = model.expect(&BOp::Solve);
-    match b.solve(()) {
+    match b.solve(U::fresh()) {
         Ok(_it) => {
             cs.built += 1;
             exp.admits(Outcome::Ok)
@@ -224,12 +268,13 @@ struct EnumChains<'a> {
 
 impl<'a> Visitor for EnumChains<'a> {
     type Out = ChainStats;
-    fn visit<S, N, D>(self) -> ChainStats
+    fn visit<S, N, D, U>(self) -> ChainStats
     where
         N: Scalar,
+        U: SimData,
         D: Dimension + 'static,
         DefaultAllocator: Allocator<N, D>,
-        S: IVPSolver<'static, D, Error = IVPError, Field = N, RealField = f64, UserData = (), Derivative = DerivBox<N, D>>
+        S: IVPSolver<'static, D, Error = IVPError, Field = N, RealField = f64, UserData = U, Derivative = DerivBox<N, D, U>>
             + DtBounds
             + 'static,
         S::Solver: 'static,
@@ -245,7 +290,7 @@ impl<'a> Visitor for EnumChains<'a> {
         // order per length-prefix, which is what makes every enumerated chain distinct
         let first = match self.first {
             None => {
-                let ok = eval_chain::<S, N, D>(&self.ctor, &[], self.dim, euler, &hooks, &mut cs);
+                let ok = eval_chain::<S, N, D, U>(&self.ctor, &[], self.dim, euler, &hooks, &mut cs);
                 if !ok {
                     cs.mismatch = Some(vec![self.ctor]);
                 }
@@ -264,7 +309,7 @@ impl<'a> Visitor for EnumChains<'a> {
             cs.hash = cs.hash.wrapping_add(id.wrapping_mul(0x9E37_79B9_7F4A_7C15) ^ (idx.len() as u64));
             let _ = last_id;
             last_id = id;
-            let ok = eval_chain::<S, N, D>(&self.ctor, &chain, self.dim, euler, &hooks, &mut cs);
+            let ok = eval_chain::<S, N, D, U>(&self.ctor, &chain, self.dim, euler, &hooks, &mut cs);
             if !ok {
                 let mut full = vec![self.ctor];
                 full.extend(chain.iter().copied());
@@ -375,6 +420,7 @@ fn chain_spec(kind: Kind, dim: DimMode, field: Field, ops: Vec<BOp>, with_solve:
             kind,
             dim,
             field,
+            data: DataMode::Unit,
             ops,
             problem: Problem::Zero,
             y0: 1.0,
@@ -416,7 +462,7 @@ pub fn run_bexh_unit(
 ) {
     let (kind, dim, field, ctor, first) = *unit;
     let v = EnumChains { kind, dim, ctor, alphabet, first, maxlen };
-    let r = catch_unwind(AssertUnwindSafe(|| dispatch(kind, dim, field, v)));
+    let r = catch_unwind(AssertUnwindSafe(|| dispatch(kind, dim, field, DataMode::Unit, v)));
     match r {
         Ok(cs) => {
             merge_chain_stats(st, kind, &cs);
@@ -493,18 +539,19 @@ struct EvalOne<'a> {
 
 impl<'a> Visitor for EvalOne<'a> {
     type Out = bool;
-    fn visit<S, N, D>(self) -> bool
+    fn visit<S, N, D, U>(self) -> bool
     where
         N: Scalar,
+        U: SimData,
         D: Dimension + 'static,
         DefaultAllocator: Allocator<N, D>,
-        S: IVPSolver<'static, D, Error = IVPError, Field = N, RealField = f64, UserData = (), Derivative = DerivBox<N, D>>
+        S: IVPSolver<'static, D, Error = IVPError, Field = N, RealField = f64, UserData = U, Derivative = DerivBox<N, D, U>>
             + DtBounds
             + 'static,
         S::Solver: 'static,
     {
         let hooks: Rc<dyn StubHooks> = Rc::new(NoHooks);
-        eval_chain::<S, N, D>(&self.ctor, self.ops, self.dim, self.euler, &hooks, self.cs)
+        eval_chain::<S, N, D, U>(&self.ctor, self.ops, self.dim, self.euler, &hooks, self.cs)
     }
 }
 
@@ -575,6 +622,7 @@ pub fn bperm_f_groups() -> Vec<InstSpec> {
                         kind,
                         dim,
                         field,
+                        data: if pi % 3 == 0 { DataMode::Counter } else { DataMode::Unit },
                         ops,
                         problem: if pi % 2 == 0 { Problem::Linear } else { Problem::Quadratic },
                         y0: 1.0,
@@ -603,7 +651,7 @@ pub fn run_bperm_unit(ui: u64, unit: &(Kind, DimMode, Field), st: &mut Stats, er
             let before_built = cs.built;
             let ok = {
                 let v = EvalOne { ctor, ops: &ops, dim, euler: kind.is_euler(), cs: &mut cs };
-                catch_unwind(AssertUnwindSafe(|| dispatch(kind, dim, field, v))).unwrap_or(false)
+                catch_unwind(AssertUnwindSafe(|| dispatch(kind, dim, field, DataMode::Unit, v))).unwrap_or(false)
             };
             if !ok || cs.built != before_built + 1 {
                 let mut full = vec![ctor];
@@ -684,7 +732,7 @@ pub fn run_bins_unit(ui: u64, unit: &(Kind, DimMode, Field, u8), alphabet: &[BOp
                 }
                 let ok = {
                     let v = EvalOne { ctor, ops: &ops, dim, euler, cs: &mut cs };
-                    catch_unwind(AssertUnwindSafe(|| dispatch(kind, dim, field, v))).unwrap_or(false)
+                    catch_unwind(AssertUnwindSafe(|| dispatch(kind, dim, field, DataMode::Unit, v))).unwrap_or(false)
                 };
                 if !ok {
                     let mut full = vec![ctor];
